@@ -11,6 +11,9 @@ use std::collections::VecDeque;
 impl_entry_display_trait!(RefTableEntry);
 impl_entry_display_trait!(RefBlockEntry);
 
+#[cfg(qcow2_rs_verif)]
+mod verif;
+
 #[derive(Copy, Clone, Default, Debug)]
 pub struct RefTableEntry(pub u64);
 
